@@ -355,3 +355,12 @@ func Rare(t *rapid.T, label string, n uint64) bool {
 	x := rapid.Uint64().Draw(t, label)
 	return splitmix64(&x)%n == 0
 }
+
+// Pow10u returns 10^n as a uint64 (n <= 19).
+func Pow10u(n int) uint64 {
+	p := uint64(1)
+	for ; n > 0; n-- {
+		p *= 10
+	}
+	return p
+}
